@@ -7,6 +7,15 @@
 //   * a scan that runs with no other thread in between (quiet) must free every object of the caller's
 //     retired set that no hazard slot holds (C03, third clause);
 //   * after destruction of the singleton every retired object has been disposed exactly once (C03).
+//
+// `--static 1` (tie A against the Lean machine Algo/HP/Protocol, HP variants): the execution stays inside what the
+// machine models: every thread attaches (unscheduled) and takes its H guards before the first traced operation, a
+// barrier separates attach / traced operations / tear-down, programs have no `reattach` (so no detach, no help_scan
+// while traced) and use `take` (exchange with nullptr) besides `swap`.  Hazard slots are named `hp<tid>.<g>`, the
+// `current_` field of a retired array `cur<tid>`, its storage `ret<tid>`; a `RECORDS` note gives the owner of every
+// record in the order `classic_scan` walks the list; the disposer leaves a `dispose o<id>` note; `deref` is a
+// scheduling point followed by `A use o<id> <live|retired|disposed>` (state read from the library's retired arrays);
+// results have the machine's shape.  tools/hp_pre.py rewrites such a trace into the machine's vocabulary.
 #include <cds/init.h>
 #include <cds/gc/hp.h>
 #include <cds/gc/dhp.h>
@@ -28,6 +37,8 @@ struct World {
     bool failed = false;
     std::string failure;
     bool odd = false;
+    bool static_mode = false;                   // --static 1: notes for the trace tie
+    atomics::atomic<int> barrier;               // static mode: attach | traced operations | tear-down
     void fail( std::string const& s ) { if ( !failed ) { failed = true; failure = s; } }
     Obj* make()
     {
@@ -43,7 +54,9 @@ struct World {
         std::memcpy( &o->disposed, &z, sizeof z ); std::memcpy( &o->retired, &z, sizeof z );
         objs.push_back( o );
         char nm[16]; std::snprintf( nm, sizeof nm, "o%d", id );
-        reg_name( o, sizeof( Obj ), nm );
+        // named from the aligned base: the trace renders an odd address as `o<id>|1` (pointer values are printed
+        // as <name of p & ~3>|<low bits>)
+        reg_name( reinterpret_cast<void*>( a ), sizeof( Obj ) + 1, nm );
         return o;
     }
     ~World() { for ( char* b : bufs ) delete[] b; }
@@ -58,6 +71,7 @@ struct obj_disposer {
     {
         int d = geti( &p->disposed ) + 1;
         seti( &p->disposed, d );
+        if ( W->static_mode ) ev_note( "dispose o" + std::to_string( geti( &p->id )));
         if ( d > 1 ) W->fail( "disposed-twice obj=" + std::to_string( geti( &p->id )));
         if ( !geti( &p->retired )) W->fail( "disposed-but-never-retired obj=" + std::to_string( geti( &p->id )));
         for ( int t = 0; t < MAXT; ++t )
@@ -79,6 +93,12 @@ struct ISmr {
     virtual void scan() = 0;
     virtual bool slot_holds( Obj* p ) = 0;      // does any hazard slot of any record hold p right now?
     virtual std::vector<Obj*> my_retired() { return {}; }   // content of the calling thread's retired array
+    // static mode (HP only)
+    virtual bool name_record( int ) { return true; }        // name the calling thread's hazard slots / retired array; false: guard g is not slot g
+    virtual std::vector<void*> scan_order() { return {}; }  // the thread records in the order a scan walks them
+    virtual void* my_record() { return nullptr; }
+    virtual bool in_retired( Obj* ) { return false; }       // is p in some thread's retired array right now?
+    virtual size_t retired_capacity() { return 0; }
     virtual void destroy() = 0;
 };
 
@@ -110,6 +130,40 @@ struct HpSmr : SmrT<cds::gc::HP> {
             v.push_back( static_cast<Obj*>( it->m_p ));
         return v;
     }
+    void* my_record() override { return cds::gc::HP::hp_implementation::tls(); }
+    size_t retired_capacity() override { return cds::gc::hp::details::basic_smr::instance().get_max_retired_ptr_count(); }
+    bool name_record( int t ) override
+    {
+        auto* rec = cds::gc::HP::hp_implementation::tls();
+        char nm[32];
+        bool ok = true;
+        for ( size_t g = 0; g < rec->hazards_.capacity(); ++g ) {
+            std::snprintf( nm, sizeof nm, "hp%d.%d", t, int( g ));
+            reg_name( &rec->hazards_[g].hp_, sizeof( rec->hazards_[g].hp_ ), nm );
+            if ( g < guards[t].size() && guards[t][g]->guard_ != &rec->hazards_[g] ) ok = false;
+        }
+        std::snprintf( nm, sizeof nm, "cur%d", t );
+        reg_name( &rec->retired_.current_, sizeof( rec->retired_.current_ ), nm );
+        std::snprintf( nm, sizeof nm, "ret%d", t );
+        reg_name( rec->retired_.retired_, rec->retired_.capacity() * sizeof( cds::gc::hp::details::retired_ptr ), nm );
+        return ok;
+    }
+    std::vector<void*> scan_order() override        // call while quiet
+    {
+        std::vector<void*> v;
+        auto& smr = cds::gc::hp::details::basic_smr::instance();
+        for ( auto* rec = smr.thread_list_.load(); rec; rec = rec->next_ )
+            v.push_back( static_cast<cds::gc::hp::details::thread_data*>( rec ));
+        return v;
+    }
+    bool in_retired( Obj* p ) override              // call while quiet
+    {
+        auto& smr = cds::gc::hp::details::basic_smr::instance();
+        for ( auto* rec = smr.thread_list_.load(); rec; rec = rec->next_ )
+            for ( auto* it = rec->retired_.first(), *e = rec->retired_.last(); it != e; ++it )
+                if ( it->m_p == p ) return true;
+        return false;
+    }
     bool slot_holds( Obj* p ) override
     {
         auto& smr = cds::gc::hp::details::basic_smr::instance();
@@ -137,6 +191,9 @@ struct Fixture {
     std::string failure;
     std::set<Obj*> myretired[MAXT];
     bool attached[MAXT];
+    bool static_ = false;           // --static 1
+    int nthreads = 0;
+    void* recptr[MAXT];
 
     size_t dhp_initial = 0;
     explicit Fixture( Case const& c ) : variant( c.variant )
@@ -145,7 +202,11 @@ struct Fixture {
         W = world.get();
         std::memset( W->prot, 0, sizeof W->prot );
         W->odd = variant.find( "odd" ) != std::string::npos;
-        for ( int t = 0; t < MAXT; ++t ) attached[t] = false;
+        for ( int t = 0; t < MAXT; ++t ) { attached[t] = false; recptr[t] = nullptr; }
+        static_ = c.optl( "static", 0 ) != 0;
+        W->static_mode = static_;
+        W->barrier.store( 0 );
+        nthreads = c.threads;
         ncells = 1 + int( c.index % 3 );
         H = size_t( 1 + c.index % 3 );
         T = size_t( c.threads + int(( c.index / 3 ) % 2 ));
@@ -168,6 +229,15 @@ struct Fixture {
             char nm[16]; std::snprintf( nm, sizeof nm, "cell%d", i );
             reg_name( &W->cells[i], sizeof( W->cells[i] ), nm );
         }
+        reg_name( &W->barrier, sizeof( W->barrier ), "barrier" );
+    }
+    // configuration of the Lean machine: H slots per record, T records (one per thread of the case, all attached for the
+    // whole traced part), R the capacity of a retired array as the library rounded it, the cells filled at start
+    std::string header_extra() const
+    {
+        if ( !static_ ) return std::string();
+        return "static=1 H=" + std::to_string( H ) + " T=" + std::to_string( nthreads ) + " R=" + std::to_string( smr->retired_capacity())
+            + " cells=" + std::to_string( ncells ) + " maxT=" + std::to_string( T );
     }
     ~Fixture() { if ( smr ) smr->destroy(); W = nullptr; }
     std::string spec() const { return "none"; }
@@ -181,7 +251,16 @@ struct Fixture {
             for ( int i = 0; i < n; ++i ) {
                 unsigned k = unsigned( r.below( 100 ));
                 int g = many ? int( r.below( 40 )) : int( r.below( nguards ));
-                if ( k < 30 ) p[t].push_back( Op( "protect", g, long( r.below( ncells ))));
+                if ( static_ ) {
+                    // the machine's client: no reattach, `take` besides `swap`
+                    if ( k < 28 ) p[t].push_back( Op( "protect", g, long( r.below( ncells ))));
+                    else if ( k < 38 ) p[t].push_back( Op( "clear", g ));
+                    else if ( k < 68 ) p[t].push_back( Op( "swap", long( r.below( ncells ))));
+                    else if ( k < 80 ) p[t].push_back( Op( "take", long( r.below( ncells ))));
+                    else if ( k < 90 ) p[t].push_back( Op( "scan" ));
+                    else p[t].push_back( Op( "deref", g ));
+                }
+                else if ( k < 30 ) p[t].push_back( Op( "protect", g, long( r.below( ncells ))));
                 else if ( k < 45 ) p[t].push_back( Op( "clear", g ));
                 else if ( k < 80 ) p[t].push_back( Op( "swap", long( r.below( ncells ))));
                 else if ( k < 88 ) p[t].push_back( Op( "scan" ));
@@ -191,14 +270,50 @@ struct Fixture {
         }
         return p;
     }
-    void thread_begin( int t ) { smr->attach(); attached[t] = true; smr->make_guards( t, nguards ); }
+    // static mode: phase k ends when all threads have arrived k times.  The arrival is a traced write (it wakes the
+    // threads that wait); waiting reads are unscheduled, a waiting thread yields
+    void barrier( int phase )
+    {
+        W->barrier.fetch_add( 1 );
+        for (;;) {
+            set_quiet( true );
+            int v = W->barrier.load();
+            set_quiet( false );
+            if ( v >= phase * nthreads ) break;
+            spin_hint();
+        }
+    }
+    void thread_begin( int t )
+    {
+        if ( !static_ ) { smr->attach(); attached[t] = true; smr->make_guards( t, nguards ); return; }
+        set_quiet( true );
+        smr->attach(); attached[t] = true; smr->make_guards( t, nguards );
+        recptr[t] = smr->my_record();
+        if ( !smr->name_record( t )) W->fail( "static-mode: guard g is not hazard slot g" );
+        bool last = W->barrier.load() == nthreads - 1;
+        if ( last ) {
+            // every record exists: who owns the records, in the order a scan walks the list
+            std::string s = "RECORDS";
+            for ( void* rec : smr->scan_order()) {
+                int owner = -1;
+                for ( int u = 0; u < nthreads; ++u ) if ( recptr[u] == rec ) owner = u;
+                s += ' ' + std::to_string( owner );
+            }
+            ev_note( s );
+        }
+        set_quiet( false );
+        barrier( 1 );
+    }
     void thread_end( int t )
     {
+        if ( static_ ) { barrier( 2 ); set_quiet( true ); }     // records stay attached until every thread has finished its program
         // final quiet scan: with no other thread in between, whatever no slot holds must be freed (HP only)
         for ( int g = 0; g < MAXG; ++g ) if ( W->prot[t][g] ) { W->prot[t][g] = nullptr; }
         smr->drop_guards( t );
         quiet_scan( t );
+        if ( static_ ) set_quiet( true );
         smr->detach(); attached[t] = false;
+        if ( static_ ) set_quiet( false );
     }
     void quiet_scan( int t )
     {
@@ -221,22 +336,37 @@ struct Fixture {
             Obj* p = smr->protect( t, g, c );
             W->prot[t][g] = p;
             if ( p && geti( &p->disposed )) W->fail( "protect-returned-disposed obj=" + std::to_string( geti( &p->id )));
+            if ( static_ ) return p ? std::vector<long>{ 1L, long( geti( &p->id )) } : std::vector<long>{ 0L };
             return { p ? long( geti( &p->id )) : 0L };
         }
         if ( op.name == "clear" ) { int g = int( op.args[0] ); W->prot[t][g] = nullptr; smr->clear( t, g ); return {}; }
         if ( op.name == "deref" ) {
             Obj* p = W->prot[t][int( op.args[0] )];
+            if ( static_ ) {
+                // the machine's `deref` is only enabled on a guard that holds an object (-1: not executed); the use is a
+                // step of its own that observes the object's state
+                if ( !p ) return { -1L };
+                pre_op( nullptr );
+                set_quiet( true );
+                int st = geti( &p->disposed ) ? 3 : smr->in_retired( p ) ? 2 : 1;
+                set_quiet( false );
+                static char const* const names[] = { "", "live", "retired", "disposed" };
+                ev_note( "A use o" + std::to_string( geti( &p->id )) + ' ' + names[st] );
+                if ( st == 3 ) W->fail( "deref-of-disposed obj=" + std::to_string( geti( &p->id )));
+                return { long( st ) };
+            }
             if ( p && geti( &p->disposed )) W->fail( "deref-of-disposed obj=" + std::to_string( geti( &p->id )));
             return { p ? long( geti( &p->id )) : 0L };
         }
-        if ( op.name == "swap" ) {
-            Obj* n = W->make();
+        if ( op.name == "swap" || op.name == "take" ) {
+            Obj* n = op.name == "swap" ? W->make() : nullptr;
             Obj* old = W->cells[int( op.args[0] )].exchange( n );
             if ( old ) {                                     // unlinked: now, and only now, it may be retired
                 seti( &old->retired, 1 );
                 myretired[t].insert( old );
                 smr->retire( old );
             }
+            if ( static_ && n ) return { long( geti( &n->id )), old ? long( geti( &old->id )) : 0L };
             return { old ? long( geti( &old->id )) : 0L };
         }
         if ( op.name == "scan" ) { smr->scan(); return {}; }
